@@ -20,7 +20,7 @@ from . import h5util as H
 ID = "C05"
 MOD = "harness.props.c05"
 LEAN = dict(modules=["MetadorModel.Props.C05"],
-            theorems=["MetadorModel.C05." + n for n in ['merge_identity', 'merge_defined', 'merge_continues_chain', 'merge_is_base', 'next_patch_follows_merged']],
+            theorems=["MetadorModel.C05." + n for n in ['merge_identity', 'merge_defined', 'merge_continues_chain', 'merge_is_base', 'next_patch_follows_merged', 'merge_view', 'merge_single', 'merge_succeeds', 'merge_idempotent_on_view']],
             drivers=["drv_mrg"])
 
 
@@ -108,7 +108,7 @@ def impl(case):
         except Exception as e:  # noqa: BLE001
             oracle.append(dict(kind="merge-of-committed-record-fails", error=type(e).__name__))
             src.close()
-            return dict(out=out + [H.show_dump(d0), "err"], oracle=oracle, tags=tags, partial=True)
+            return dict(out=out + [H.show_dump(d0), "wf T", "err"], oracle=oracle, tags=tags, partial=True)
         d1 = H.dump(src)
         m1 = _meta(src)
         h1 = _hashes(src_dir)
@@ -150,7 +150,7 @@ def impl(case):
             merged = cls(Path(mdir) / "rec", "r")
         except Exception as e:  # noqa: BLE001
             oracle.append(dict(kind="merged-record-does-not-open", error=type(e).__name__))
-            return dict(out=out + [H.show_dump(d0), "ok"], oracle=oracle, tags=tags, partial=True)
+            return dict(out=out + [H.show_dump(d0), "wf T", "ok"], oracle=oracle, tags=tags, partial=True)
         dm = H.dump(merged)
         mm = _meta(merged)
         if len(mm) != 1:
@@ -162,7 +162,8 @@ def impl(case):
         if mm and (mm[0][0] != m0[-1][0] or mm[0][1] != m0[-1][1] or mm[0][2] != m0[-1][2] or mm[0][3] != m0[0][3] or mm[0][4] is None):
             oracle.append(dict(kind="merged-userblock-wrong", merged=mm[0], source_last=m0[-1], source_first=m0[0]))
         merged.close()
-        out += [H.show_dump(d0), "ok", "n %d" % len(mm), H.show_dump(dm)]
+        # "wf T": the hypothesis ViewReplayable of the Lean theorems must hold for every reachable record
+        out += [H.show_dump(d0), "wf T", "ok", "n %d" % len(mm), H.show_dump(dm)]
 
         # follow-up patches created on the source apply to the merged container
         follow = case.get("follow") or []
@@ -236,7 +237,7 @@ def impl(case):
 
 def lines(case):
     L = [H.op_line(op) for op in case["ops"]]
-    L += ["dump", "merge", "ncont", "dump"]
+    L += ["dump", "wf", "merge", "ncont", "dump"]
     if case.get("follow"):
         L += ["patch"] + [H.op_line(op) for op in case["follow"]] + ["dump"]
     return L
